@@ -163,13 +163,18 @@ func streamEngine(t *testing.T, o *Out, p EngProfile) {
 			if cc.GDepth < concDepth && !computedCycle(c.NSs) {
 				cc.GDepth, cc.RDepth = concDepth, 0
 			}
+			// (their cost is capped: a cycle through tuple-to-subject-sets is only ended by the depth,
+			// and at depth 120 that is thousands of storage calls - such cases get no cres)
+			env.budget = 30*calls + 300
 			cres, ccalls := env.runCheck(&cc, false)
-			for k := 0; k < 4 && cres == res && ccalls <= callBudget; k++ {
+			for k := 0; k < 4 && cres == res && ccalls <= env.budget; k++ {
 				if again, _ := env.runCheck(&cc, false); again != cres {
 					cres = again
 				}
 			}
-			if ccalls <= callBudget {
+			over := ccalls > env.budget
+			env.budget = 0
+			if !over {
 				impl += "\tcres=" + cres
 			} else {
 				o.Count("dropped:conc-cost")
